@@ -247,5 +247,7 @@ instance (N a b : Nat) (I : Layout) (p : Nat) : Decidable (rwpValid N a b I p) :
 instance (ls cs : Nat) (f : Bool) (a : EEArgs) : Decidable (eeValid ls cs f a) := by unfold eeValid; infer_instance
 instance (m c : Nat) : Decidable (gpfSampleValid m c) := by unfold gpfSampleValid; infer_instance
 
+instance (I : Layout) (M : MMod) : Decidable (ukfSupported I M) := by unfold ukfSupported; infer_instance
+instance (I : Layout) : Decidable (sukfSupported I) := by unfold sukfSupported; infer_instance
 
 end BFL.Bounds
